@@ -61,6 +61,7 @@ type Case struct {
 	Universe []string `json:"universe"`
 	Layout   bool     `json:"layout"`   // emit the decoded layout
 	ReadFile string   `json:"readfile"` // do not write: read this file (written by the other implementation)
+	Big      bool     `json:"big"`      // too large for TLC: the scan is compared with the written records by the driver, only the verdict is recorded
 }
 
 // a seek result is recorded as its first seekCap records, its length and its last record
@@ -234,7 +235,7 @@ func (r *runner) exec(dump string) map[string]interface{} {
 	buf := &bytes.Buffer{}
 	var w *reftable.Writer
 	accRefs, accLogs := []refOut{}, []logOut{}
-	writeEv := map[string]interface{}{"op": "write", "min": c.Min, "max": c.Max, "exact": c.Exact, "hashsize": r.hs}
+	writeEv := map[string]interface{}{"op": "write", "min": c.Min, "max": c.Max, "exact": c.Exact, "hashsize": r.hs, "big": false}
 	calls := []map[string]interface{}{}
 	closeRes := "ok"
 	msg := guard(func() error {
@@ -335,6 +336,90 @@ func (r *runner) readBack(data []byte) map[string]interface{} {
 	})
 	if _, ok := scan["min"]; !ok {
 		scan["min"], scan["max"] = 0, 0
+	}
+	// a caller that reuses ONE record variable and keeps the earlier results by value must see the same records
+	if rd != nil && scan["err"] == "" {
+		scan["reuse"] = guard(func() error {
+			it, err := rd.SeekRef("")
+			if err != nil {
+				return err
+			}
+			var rec reftable.RefRecord
+			var kept []reftable.RefRecord
+			for {
+				ok, err := it.NextRef(&rec)
+				if err != nil {
+					return err
+				}
+				if !ok {
+					break
+				}
+				kept = append(kept, rec)
+			}
+			want := scan["refs"].([]refOut)
+			if len(kept) != len(want) {
+				return fmt.Errorf("reused-record scan returns %d refs, fresh-record scan %d", len(kept), len(want))
+			}
+			for i := range kept {
+				a, _ := json.Marshal(r.refFromRec(&kept[i]))
+				b, _ := json.Marshal(want[i])
+				if string(a) != string(b) {
+					return fmt.Errorf("ref %d kept from a reused record changed: %s, was %s", i, a, b)
+				}
+			}
+			it, err = rd.SeekLog("", math.MaxUint64)
+			if err != nil {
+				return err
+			}
+			var lrec reftable.LogRecord
+			var lkept []reftable.LogRecord
+			for {
+				ok, err := it.NextLog(&lrec)
+				if err != nil {
+					return err
+				}
+				if !ok {
+					break
+				}
+				lkept = append(lkept, lrec)
+			}
+			lwant := scan["logs"].([]logOut)
+			for i := range lkept {
+				if i >= len(lwant) {
+					break
+				}
+				a, _ := json.Marshal(r.logFromRec(&lkept[i]))
+				b, _ := json.Marshal(lwant[i])
+				if string(a) != string(b) {
+					return fmt.Errorf("log %d kept from a reused record changed", i)
+				}
+			}
+			return nil
+		})
+	} else {
+		scan["reuse"] = ""
+	}
+	if c.Big {
+		// compare here, record the verdict only
+		wev := r.ev[0]
+		wr, _ := json.Marshal(wev["refs"])
+		sr, _ := json.Marshal(scan["refs"])
+		wl, _ := json.Marshal(wev["logs"])
+		sl, _ := json.Marshal(scan["logs"])
+		f, perr := fmtdec.Parse(data)
+		problems := []string{}
+		if perr != nil {
+			problems = append(problems, perr.Error())
+		} else {
+			problems = append(problems, f.Problems...)
+		}
+		big := map[string]interface{}{"op": "big", "nrefs": len(scan["refs"].([]refOut)), "nlogs": len(scan["logs"].([]logOut)),
+			"refsequal": string(wr) == string(sr), "logsequal": string(wl) == string(sl), "err": scan["err"], "reuse": scan["reuse"], "problems": problems,
+			"wrefs": len(wev["refs"].([]refOut)), "wlogs": len(wev["logs"].([]logOut))}
+		wev["calls"], wev["refs"], wev["logs"], wev["big"] = []int{}, []int{}, []int{}, true
+		r.emit(big)
+		out["events"] = r.ev
+		return out
 	}
 	r.emit(scan)
 	if rd != nil {
